@@ -151,8 +151,8 @@ pub fn run(args: &Args) -> i32 {
     });
 
     // track sets with ties
-    let ms = multisets(6, if thorough { 8 } else { 5 });
-    rep.run("track-multisets", ms.len() as u64, 300, true, "every multiset of size 0..=8 (quick: 5) drawn from 6 template tracks (through the axis, back to back, zero pitch, an identical copy, huge radius with subnormal pitch, 2.6 cm off axis with large pitch) into find_vertices", |idx, loc| {
+    let ms = multisets(7, if thorough { 8 } else { 5 });
+    rep.run("track-multisets", ms.len() as u64, 300, true, "every multiset of size 0..=8 (quick: 5) drawn from 7 template tracks (through the axis, back to back, zero pitch, an identical copy, huge radius with subnormal pitch, 2.6 cm off axis with large pitch) into find_vertices", |idx, loc| {
         let t = template_tracks();
         let set: Vec<Track> = ms[idx as usize].iter().map(|&i| t[i]).collect();
         loc.note(hash64(&ms[idx as usize]), set.len() >= 2, "vertexed");
